@@ -48,8 +48,8 @@ type PortBlock struct {
 	PublicIP      uint32
 	PortStart     uint16
 	PortEnd       uint16
-	NextPort      uint16
-	PortsInUse    uint16
+	NextPort      uint32 // __u32 in struct port_block (bpf/nat44.c): updated with atomic ops
+	PortsInUse    uint32 // __u32 in struct port_block (bpf/nat44.c)
 	AllocatedAt   uint64
 	SubscriberID  uint32
 	BlockSizeLog2 uint8
@@ -417,6 +417,15 @@ func (m *Manager) AllocateNAT(privateIP net.IP) (*Allocation, error) {
 	m.poolMu.Lock()
 	defer m.poolMu.Unlock()
 
+	// Re-check under the pool lock: a concurrent call for the same private IP may have
+	// passed the check above as well and allocated in the meantime.
+	m.allocationMu.RLock()
+	if existing, ok := m.allocations[privKey]; ok {
+		m.allocationMu.RUnlock()
+		return existing, nil
+	}
+	m.allocationMu.RUnlock()
+
 	var selectedPool *PoolEntry
 	var poolIndex, slot int
 	for i := range m.pool {
@@ -463,7 +472,7 @@ func (m *Manager) AllocateNAT(privateIP net.IP) (*Allocation, error) {
 				PublicIP:      ipToKey(selectedPool.PublicIP),
 				PortStart:     portStart,
 				PortEnd:       portEnd,
-				NextPort:      portStart,
+				NextPort:      uint32(portStart),
 				PortsInUse:    0,
 				AllocatedAt:   uint64(time.Now().UnixNano()),
 				SubscriberID:  subscriberID,
